@@ -207,6 +207,14 @@ DIRECTED_OBJ = [
     ("d3", "D0,M1.0,T1", [["E0", "E5"], ["E5", "E0"], ["R9", "C"]]),
     ("d1", "D0,G0.1,W130,M1.0,T1", [["E2", "C"], ["S", "G0", "G1"]]),
     ("d1", "N0.3,G0.0,G0.1,W600,T0", [["S", "C", "G0", "G1"], ["E2", "C"]]),
+    # the retire list must travel with the elements: snapshot on A, grow A (table retired), move / swap / move-assign A
+    # into B, destroy the old shell within the cooling period, then the reader uses the snapshot (S<v> / R<v>.<i>)
+    ("d1", "D0,G0.0,S0,G0.1,M1.0,K0,R0.0,T1", None),
+    ("d2", "N0.3,G0.1,S0,G0.5,D1,X0.1,K0,R0.1,T1", None),
+    ("s2", "N0.5,G0.1,S0,G0.4,N1.6,A1.0,K0,R0.0,T1", None),
+    ("d1", "N0.4,G0.0,S0,G0.1,G0.2,M1.0,M2.1,K0,R0.0,K1,R0.0,T2", None),
+    ("s4", "D0,G0.2,S0,G0.9,D1,G1.1,X1.0,K1,R0.2,T0", None),
+    ("d1", "D0,G0.0,S0,G0.1,M1.0,K0,R0.0,T1", [["E2", "C"], ["S", "G0", "E3"]]),
 ]
 
 
